@@ -291,8 +291,10 @@ def commit_replay(job):
         if a["name"] in ("Solve", "Result", "GetResults") and after != before:
             viol.append((f"commit/pure/{a['name']}", f"{a['name']} changed the committed internal state, after {' -> '.join(trail)}", case))
             break
-        if a["name"] == "SaveIter":
-            tok[st["zOld"]] = after
+        if a["name"] == "Solve":
+            # the trial state this Solve leaves behind carries the specification's token st["z"] (unique per Solve of a behaviour):
+            # a later SaveIter must commit exactly this content (Commit: zOld' = z), also when a SetIter came in between
+            tok.setdefault(st["z"], h(getattr(sim, "_InElastic__z")))
         if a["name"] == "SetIter":
             u_exp, z_exp = snaps[a["arg"] - 1]
             if after != z_exp or np.abs(sim.displacement - u_exp).max() > 0:
@@ -312,9 +314,20 @@ def commit_replay(job):
     return {"viol": viol, "n": n, "keys": [("commit", tuple(trail[:4]))], "traces": 1}
 
 
-def run(ctx):
+def commit_section(ctx, num, seed, label="commit"):
+    """spec/InelasticCommit.tla model-checked, then `num` of its behaviours replayed on a real Simulations.InElastic (shared by
+    C19: integration is pure / only SaveIter commits, and C15: SetIter brings back the displacement AND the internal state
+    saved with the iteration, SaveIter stores the state the simulation is in)."""
     from harness.lifecycle import split_behaviours
 
+    ctx.tlc_must_hold("InelasticCommit", "InelasticCommit_mc.cfg", what="Pure/Commit/StoreFrozen")
+    r3 = ctx.tlc("InelasticCommit", "InelasticCommit_sim.cfg", workers=1, args=["-simulate", f"num={num}", "-depth", "10", "-seed", str(seed)])
+    _, behs = split_behaviours(r3.prints.get("ST", []))
+    ctx.pmap(commit_replay, list(enumerate(behs)))
+    ctx.section(label, behaviours=len(behs), actions=sorted({s["act"]["name"] for b in behs for s in b}))
+
+
+def run(ctx):
     t = "thorough" if ctx.thorough else "quick"
     res = ctx.tlc_must_hold("MC_Plasticity1D", f"MC_Plasticity1D_{t}.cfg", what="Admissible/Consistency/Dissipative/PMonotone", timeout=3000)
     paths = res.prints.get("PATH", [])
@@ -348,10 +361,6 @@ def run(ctx):
                 ctx.violation(f"combo/{key}/{parts[0]}/{parts[2]}/{parts[3]}", f"{v['id']}: {msg} at steps {v[key][:6]}", {"id": v["id"], "verdict": v})
     ctx.section("combinations", recorded=len(traces), rejected_by_constructor=rejected)
     # (3) commit discipline
-    ctx.tlc_must_hold("InelasticCommit", "InelasticCommit_mc.cfg", what="Pure/Commit/StoreFrozen")
-    r3 = ctx.tlc("InelasticCommit", "InelasticCommit_sim.cfg", workers=1, args=["-simulate", f"num={60 if ctx.thorough else 16}", "-depth", "10", "-seed", str(ctx.seed + 3)])
-    _, behs = split_behaviours(r3.prints.get("ST", []))
-    ctx.pmap(commit_replay, list(enumerate(behs)))
-    ctx.section("commit", behaviours=len(behs))
+    commit_section(ctx, 60 if ctx.thorough else 16, ctx.seed + 3)
     ctx.cov["rule"] = "exhaustive uniaxial strain paths of Plasticity1D.tla replayed (3-D code, two local solvers, plane stress); random non-proportional traces per constitutive combination validated by TLC; commit-discipline behaviours replayed; distinct = (material, solver, sign pattern) + combinations"
     ctx.assume("laws without closed form (Voce, Swift, Armstrong-Frederick, Hill, ...) are checked through the relations of the property only (signs, finite-difference tangent at 2e-4 relative, central differences with steps 1e-5 / 3e-6 / 3e-5 - the stress carries the local solver's noise of about 1e-9)")
